@@ -25,7 +25,7 @@ func ConfigExtra(tier string, shard, of int) ExtraResult {
 	actors := world.MakeActors()
 	findings := map[string]engine.Finding{}
 	rewards := []int64{0, 1, 1_000_000, 400_000_000_000_000}
-	baselines := []int64{1, 1_000_000_000_000_000_000}
+	baselines := []int64{0, 1, 1_000_000_000_000_000_000}
 	apys := []string{"0", "0.5", "-0.5", "1000000"}
 	periods := []int64{11, 2000}
 	offline := []int64{1, 1800}
@@ -41,7 +41,7 @@ func ConfigExtra(tier string, shard, of int) ExtraResult {
 							if idx%of != shard {
 								continue
 							}
-							cfg := world.Config{BlockReward: br, Baseline: bl, APY: apy, HalvingPeriod: hp, AdjustmentPeriod: ap, OfflineTrigger: off}
+							cfg := world.Config{BlockReward: br, Baseline: bl, BaselineZero: bl == 0, APY: apy, HalvingPeriod: hp, AdjustmentPeriod: ap, OfflineTrigger: off}
 							label := fmt.Sprintf("config(reward=%d,baseline=%d,apy=%s,halving=%d,adjust=%d,offline=%d)", br, bl, apy, hp, ap, off)
 							gs, _ := world.Genesis(enc, actors, cfg)
 							var ng nodetypes.GenesisState
